@@ -211,3 +211,42 @@ def concat_parts(e):
             isinstance(e.args[0], (ast.List, ast.Tuple)):
         return list(e.args[0].elts)
     return None
+
+
+def choice_assignments(fnode):
+    """`if c: x = A else: x = B` statements (the canonical form of `x = A if c else B`) -> [(test, target text, A, B)]"""
+    out = []
+    for n in own_nodes(fnode):
+        if isinstance(n, ast.If) and len(n.body) == 1 and len(n.orelse) == 1 and isinstance(n.body[0], ast.Assign) and \
+                isinstance(n.orelse[0], ast.Assign) and len(n.body[0].targets) == 1 and len(n.orelse[0].targets) == 1 and \
+                norm(n.body[0].targets[0]) == norm(n.orelse[0].targets[0]):
+            out.append((n.test, norm(n.body[0].targets[0]), n.body[0].value, n.orelse[0].value))
+    return out
+
+
+def choice_returns(fnode):
+    """`if c: return A else: return B` -> [(test, A, B)]"""
+    out = []
+    for n in own_nodes(fnode):
+        if isinstance(n, ast.If) and len(n.body) == 1 and len(n.orelse) == 1 and isinstance(n.body[0], ast.Return) and \
+                isinstance(n.orelse[0], ast.Return):
+            out.append((n.test, n.body[0].value, n.orelse[0].value))
+    return out
+
+
+def call_args_by_param(call, callee_node, skip_self=True):
+    """{parameter name: argument expression} for a call of the function whose FunctionDef is callee_node
+    (positional and keyword arguments alike; *args / **kwargs are ignored)"""
+    params = [a.arg for a in callee_node.args.args]
+    if skip_self and params and params[0] in ('self', 'cls'):
+        params = params[1:]
+    out = {}
+    for i, a in enumerate(call.args):
+        if isinstance(a, ast.Starred):
+            break
+        if i < len(params):
+            out[params[i]] = a
+    for k in call.keywords:
+        if k.arg is not None:
+            out[k.arg] = k.value
+    return out
